@@ -9,6 +9,9 @@
 //   6 static_set::equal_range (own unit: a hard compile error on the unfixed tree must not break unit 1)
 //   7 flat_set::insert(sorted_unique, first, last) (own unit: declared but never defined on the unfixed tree)
 //   8 flat_set<Tracked, static_vector<Tracked,N>, less>
+//   9 comparator with run-time state (dir_less{descending}): flat_set in both comparator states (swap / copy / move / (comp)
+//     constructors must transfer the comparator object, everything else must keep it), static_set (always default state)
+// All transparent comparators are also queried with a heterogeneous RANGE key equivalent to 0, 1 or several stored elements.
 //
 // case space: enumerated = (subject config, start subset of the key universe with size <= capacity, op family);
 //             random     = seeded histories of ~40 operations at capacity 3/4/16.
@@ -41,20 +44,45 @@ struct HK { // heterogeneous lookup key (never convertible to int)
     friend bool operator<(HK a, int b) { return a.v < b; }
     friend bool operator<(int a, HK b) { return a < b.v; }
 };
+// heterogeneous RANGE key: equivalent to every int in [lo,hi], i.e. to 0, 1 or several stored elements
+// (a valid heterogeneous key: the set is partitioned with respect to it under both orderings)
+struct HR {
+    int lo, hi;
+    friend bool operator<(HR a, int b) { return a.hi < b; }
+    friend bool operator<(int a, HR b) { return a < b.lo; }
+};
 struct TGreater { // harness transparent comparator, descending
     using is_transparent = void;
     bool operator()(int a, int b) const { return a > b; }
     bool operator()(HK a, int b) const { return a.v > b; }
     bool operator()(int a, HK b) const { return a > b.v; }
+    bool operator()(HR a, int b) const { return a.lo > b; }
+    bool operator()(int a, HR b) const { return a > b.hi; }
+};
+// stateful comparator: default constructible, but the ordering is run-time state of the object.
+// Every operation that transfers a set (copy/move/swap/(comp) constructors) must transfer or keep this state.
+struct DirLess {
+    using is_transparent = void;
+    bool descending      = false;
+    DirLess()            = default;
+    explicit DirLess(bool d) : descending(d) { }
+    bool operator()(int a, int b) const { return descending ? a > b : a < b; }
+    bool operator()(HK a, int b) const { return descending ? a.v > b : a.v < b; }
+    bool operator()(int a, HK b) const { return descending ? a > b.v : a < b.v; }
+    bool operator()(HR a, int b) const { return descending ? a.lo > b : a.hi < b; }
+    bool operator()(int a, HR b) const { return descending ? a > b.hi : a < b.lo; }
 };
 // coarse comparator: keys 2j-1 and 2j are equivalent (equivalence under Compare is not operator==)
 inline int coarse_class(int a) { return (a + 1) / 2; }
 struct CoarseLess {
     bool operator()(int a, int b) const { return coarse_class(a) < coarse_class(b); }
 };
-struct MCmp { // model comparator (run-time mode: 0 ascending, 1 descending, 2 coarse ascending)
-    int mode = 0;
+struct MCmp { // model comparator (run-time mode: 0 ascending, 1 descending, 2 coarse ascending); transparent for HR keys
+    using is_transparent = void;
+    int mode             = 0;
     bool operator()(int a, int b) const { return mode == 1 ? a > b : mode == 2 ? coarse_class(a) < coarse_class(b) : a < b; }
+    bool operator()(HR a, int b) const { return mode == 1 ? a.lo > b : a.hi < b; }
+    bool operator()(int a, HR b) const { return mode == 1 ? a > b.hi : a < b.lo; }
 };
 using M  = std::set<int, MCmp>;
 using MM = std::multiset<int, MCmp>;
@@ -210,6 +238,9 @@ struct CfgBase {
     static constexpr bool is_static       = Static;  // static_set (capacity rule applies)
     static constexpr bool tracked         = Tracked; // key type is vf::Tracked
     static constexpr bool inline_storage  = InlineStorage; // elements live inside the set object
+    // comparator with run-time state (DirLess): the model's comparator object carries the same state (mode 0/1)
+    static constexpr bool stateful        = std::is_same_v<typename SetT::key_compare, DirLess>;
+    static constexpr int n_states         = (stateful && !Static) ? 2 : 1; // static_set cannot be given a comparator object
 };
 
 unsigned popcount(unsigned x) { return (unsigned)__builtin_popcount(x); }
@@ -289,10 +320,38 @@ struct Drv {
     static constexpr std::size_t cap = C::cap;
     static constexpr int U           = C::universe;
 
-    static M model() { return M(MCmp{C::mode}); }
-    static M model_of(unsigned mask)
+    // st: comparator state (stateful configurations only; otherwise the configuration's fixed mode)
+    static M model(int st = 0) { return M(MCmp{C::stateful ? st : C::mode}); }
+    static int state_of(M const& m) { return C::stateful ? m.key_comp().mode : 0; }
+    static M like(M const& m) { return M(m.key_comp()); }             // empty, same comparator object
+    static M with_state(M const& m, int st)                            // same elements under comparator state st
     {
-        M m = model();
+        M r = model(st);
+        for (int k : m) { r.insert(k); }
+        return r;
+    }
+    static typename Set::key_compare make_cmp(M const& m)
+    {
+        if constexpr (C::stateful) {
+            return typename Set::key_compare{m.key_comp().mode == 1};
+        } else {
+            (void)m;
+            return typename Set::key_compare{};
+        }
+    }
+    // an empty set whose comparator object is in the model's state
+    static Set make_set(M const& m)
+    {
+        if constexpr (C::n_states > 1) {
+            return Set{make_cmp(m)};
+        } else {
+            (void)m;
+            return Set{};
+        }
+    }
+    static M model_of(unsigned mask, int st = 0)
+    {
+        M m = model(st);
         for (int k = 1; k <= U; ++k) {
             if (mask >> (k - 1) & 1) { m.insert(k); }
         }
@@ -307,9 +366,8 @@ struct Drv {
     static std::uint64_t h(M const& m, std::uint64_t a = 0, std::uint64_t b = 0)
     {
         static std::uint64_t const base = vf::fnv(C::name);
-        return vf::mix(vf::mix(base, mask_of(m)), vf::mix(a, b));
+        return vf::mix(vf::mix(base, mask_of(m) | ((unsigned)state_of(m) << 24)), vf::mix(a, b));
     }
-    static bool cmp(int a, int b) { return MCmp{C::mode}(a, b); }
 
     // -------------------------------------------------------------- situations
     static char const* fill(M const& m) { return m.empty() ? "empty" : (m.size() >= cap ? "full" : "not-full"); }
@@ -356,7 +414,7 @@ struct Drv {
         std::vector<int> a = snap(s);
         // invariant, independent of the model: strictly ascending under the comparator
         for (std::size_t i = 0; i + 1 < a.size(); ++i) {
-            if (!cmp(a[i], a[i + 1])) {
+            if (!m.key_comp()(a[i], a[i + 1])) {
                 vf::diverge(a[i] == a[i + 1] ? "order:duplicate-key" : "order:not-ascending", show(a), "strictly ascending under Compare");
                 break;
             }
@@ -366,6 +424,10 @@ struct Drv {
         vf::eq_bool("empty", s.empty(), m.empty());
         if constexpr (requires { s.full(); }) { vf::eq_bool("full", s.full(), m.size() >= cap); }
         if constexpr (C::tracked && C::inline_storage) { vf::expect_live_in(&s, sizeof s, m.size()); }
+        if constexpr (C::stateful) { // the comparator object's state is part of the set's state (consulted after every step)
+            vf::eq_int("key_comp:state", (int)s.key_comp().descending, (int)(m.key_comp().mode == 1));
+            vf::eq_int("value_comp:state", (int)s.value_comp().descending, (int)(m.key_comp().mode == 1));
+        }
         return mk.clean();
     }
 
@@ -398,8 +460,8 @@ struct Drv {
     template <typename F>
     static void fresh(M const& m0, unsigned order, F&& f)
     {
-        Set s;
-        M m = m0;
+        Set s = make_set(m0);
+        M m   = m0;
         if (!build(s, m, order)) { return; }
         f(s, m);
     }
@@ -408,6 +470,7 @@ struct Drv {
     {
         vf::crumb(C::name, "clear()", "resync", "target=%s", show_m(m).c_str());
         s.clear();
+        if constexpr (C::n_states > 1) { s = make_set(m); }
         for (int k : m) {
             vf::crumb(C::name, "insert(const&)", "resync", "target=%s k=%d", show_m(m).c_str(), k);
             Key key(k);
@@ -471,7 +534,98 @@ struct Drv {
         }
 #endif
     }
-    static void op_lookups(Set& s, M const& m)
+    // heterogeneous lookups with a key that is equivalent to 0, 1 or SEVERAL stored elements; reference: the
+    // transparent overloads of std::set<int, MCmp> (MCmp orders HR against int exactly like the tetl comparator)
+    static std::string range_key_sit(M const& m, HR hr)
+    {
+        auto er         = m.equal_range(hr);
+        std::size_t cnt = (std::size_t)std::distance(er.first, er.second);
+        char const* p   = cnt == 0 ? (er.first != m.end() ? "K-matches-none,has-successor" : "K-matches-none,no-successor")
+                        : cnt == 1 ? "K-matches-one"
+                                   : "K-matches-several";
+        return std::string(p) + "," + fill(m);
+    }
+    template <typename S, typename R>
+    static void check_range(S const& s, M const& m, HR hr, R const& r)
+    {
+        auto er = m.equal_range(hr);
+        eq_pos("ret.first", pos_of(s, r.first), mpos(m, er.first), (long long)m.size());
+        eq_pos("ret.second", pos_of(s, r.second), mpos(m, er.second), (long long)m.size());
+        vf::eq_int("ret.length", (long long)(r.second - r.first), (long long)std::distance(er.first, er.second));
+    }
+    template <typename S>
+    static void lookups_range(S& s, M const& m, HR hr, bool is_const)
+    {
+        std::string sit = range_key_sit(m, hr);
+        char op[64];
+        long long size = (long long)m.size();
+        auto name      = [&](char const* base) {
+            std::snprintf(op, sizeof op, "%s(K)%s", base, is_const ? " const" : "");
+            return op;
+        };
+        bool nontrivial  = !m.empty();
+        std::uint64_t hh = h(m, (std::uint64_t)(hr.lo * 64 + hr.hi), 0x4852);
+        auto er          = m.equal_range(hr);
+        long long lb = mpos(m, er.first), ub = mpos(m, er.second);
+        {
+            vf::crumb(C::name, name("find"), sit.c_str(), "S=%s K=[%d,%d]", show_m(m).c_str(), hr.lo, hr.hi);
+            auto it = s.find(hr);
+            vf::cover(op, hh, nontrivial);
+            long long o = pos_of(s, it);
+            // std: "an element equivalent to the key" - any element of the run is a correct answer
+            if (lb == ub) {
+                eq_pos("ret", o, size, size);
+            } else if (!(o >= lb && o < ub)) {
+                eq_pos("ret", o, lb, size);
+            }
+        }
+        if (is_const) {
+            vf::crumb(C::name, name("contains"), sit.c_str(), "S=%s K=[%d,%d]", show_m(m).c_str(), hr.lo, hr.hi);
+            bool r = s.contains(hr);
+            vf::cover(op, hh, nontrivial);
+            vf::eq_bool("ret", r, lb != ub);
+
+            vf::crumb(C::name, name("count"), sit.c_str(), "S=%s K=[%d,%d]", show_m(m).c_str(), hr.lo, hr.hi);
+            auto c = s.count(hr);
+            vf::cover(op, hh, nontrivial);
+            vf::eq_int("ret", c, m.count(hr));
+        }
+        {
+            vf::crumb(C::name, name("lower_bound"), sit.c_str(), "S=%s K=[%d,%d]", show_m(m).c_str(), hr.lo, hr.hi);
+            auto it = s.lower_bound(hr);
+            vf::cover(op, hh, nontrivial);
+            eq_pos("ret", pos_of(s, it), mpos(m, m.lower_bound(hr)), size);
+        }
+        {
+            vf::crumb(C::name, name("upper_bound"), sit.c_str(), "S=%s K=[%d,%d]", show_m(m).c_str(), hr.lo, hr.hi);
+            auto it = s.upper_bound(hr);
+            vf::cover(op, hh, nontrivial);
+            eq_pos("ret", pos_of(s, it), mpos(m, m.upper_bound(hr)), size);
+        }
+#if VF_UNIT != 1 && VF_UNIT != 2
+        {
+            vf::crumb(C::name, name("equal_range"), sit.c_str(), "S=%s K=[%d,%d]", show_m(m).c_str(), hr.lo, hr.hi);
+            auto r = s.equal_range(hr);
+            vf::cover(op, hh, nontrivial);
+            check_range(s, m, hr, r);
+        }
+#endif
+    }
+    // every range key over 0..U+1 (small universes); a spread of widths for the large ones
+    template <typename F>
+    static void for_each_range_key(F&& f)
+    {
+        for (int lo = 0; lo <= U + 1; ++lo) {
+            for (int hi = lo; hi <= U + 1; ++hi) {
+                int w = hi - lo;
+                if (U > 8 && !(w == 0 || w == 1 || w == 2 || w == 5 || w == U + 1) ) { continue; }
+                if (U > 8 && w >= 2 && lo % 3 != 0) { continue; }
+                f(HR{lo, hi});
+            }
+        }
+    }
+    // deep: additionally every heterogeneous range key (several equivalent elements)
+    static void op_lookups(Set& s, M const& m, bool deep = false)
     {
         Set const& cs = s;
         for (int k = 0; k <= U + 1; ++k) { // 0 and U+1: below / above every key of the universe
@@ -484,6 +638,46 @@ struct Drv {
                 lookups_one(cs, m, k, hk, "K", true);
             }
         }
+        if constexpr (C::hetero) {
+            if (deep) {
+                for_each_range_key([&](HR hr) {
+                    lookups_range(s, m, hr, false);
+                    lookups_range(cs, m, hr, true);
+                });
+            }
+        }
+    }
+    // light version: keys below / inside / above the universe (a comparator object in the wrong state answers at
+    // least one of them wrongly for every non-empty set) and one wide range key
+    static void probe_lookups(Set& s, M const& m)
+    {
+        Set const& cs = s;
+        for (int k : {0, (U + 1) / 2, U + 1}) {
+            Key key(k);
+            lookups_one(s, m, k, key, "key", false);
+            lookups_one(cs, m, k, key, "key", true);
+            if constexpr (C::hetero) {
+                HK hk{k};
+                lookups_one(cs, m, k, hk, "K", true);
+            }
+        }
+        if constexpr (C::hetero) {
+            lookups_range(s, m, HR{2, U - 1}, false);
+            lookups_range(cs, m, HR{2, U - 1}, true);
+        }
+    }
+    // after an operation that transferred or had to preserve the set (copy/move/swap/construct): it must keep
+    // working with ITS comparator object - one insert, and for stateful comparators every lookup
+    static void use_after(Set& x, M& xm)
+    {
+        for (int i = 0; i < U; ++i) {
+            int k = 1 + (i + 2) % U;
+            if (!xm.count(k) && insert_issuable(xm, k)) {
+                op_insert(x, xm, k, 0);
+                break;
+            }
+        }
+        if constexpr (C::stateful) { probe_lookups(x, xm); }
     }
     static void op_observers(Set& s, M const& m)
     {
@@ -526,8 +720,8 @@ struct Drv {
                 Key ka(a);
                 Key kb(b);
                 vf::cover("key_comp()/value_comp()", h(m, a, b), true);
-                vf::eq_bool("key_comp", kc(ka, kb), cmp(a, b));
-                vf::eq_bool("value_comp", vc(ka, kb), cmp(a, b));
+                vf::eq_bool("key_comp", kc(ka, kb), m.key_comp()(a, b));
+                vf::eq_bool("value_comp", vc(ka, kb), m.key_comp()(a, b));
             }
         }
     }
@@ -606,8 +800,9 @@ struct Drv {
 
     // model of a range insert: sequential insert with the capacity rule (static_set); flat_set: only issued when it fits
     // which of several distinct-but-equivalent keys inside ONE range gets inserted is unspecified (LWG 2844): never issued
-    static bool range_ambiguous(std::vector<int> const& seq)
+    static bool range_ambiguous(M const& m, std::vector<int> const& seq)
     {
+        auto cmp = m.key_comp();
         for (std::size_t i = 0; i < seq.size(); ++i) {
             for (std::size_t j = i + 1; j < seq.size(); ++j) {
                 if (seq[i] != seq[j] && !cmp(seq[i], seq[j]) && !cmp(seq[j], seq[i])) { return true; }
@@ -666,6 +861,30 @@ struct Drv {
         if (vf::want_sample("erase(key)")) { vf::sample("erase(key)", "%s: k=%d -> %d, now %s", C::name, k, (int)r, show(snap(s)).c_str()); }
         check_state(s, m);
         return mk.clean();
+    }
+    // heterogeneous erase (C++23 set::erase(K&&)): erases the whole run of equivalent elements; only if tetl provides it
+    static constexpr bool has_erase_K = requires(Set& s, HR h) { s.erase(h); };
+    static bool op_erase_K(Set& s, M& m, HR hr)
+    {
+        if constexpr (has_erase_K) {
+            Mark mk;
+            std::string sit = range_key_sit(m, hr);
+            vf::crumb(C::name, "erase(K)", sit.c_str(), "S=%s K=[%d,%d]", show_m(m).c_str(), hr.lo, hr.hi);
+            std::uint64_t hh = h(m, (std::uint64_t)(hr.lo * 64 + hr.hi), 0x4853);
+            auto er          = m.equal_range(hr);
+            auto e           = std::distance(er.first, er.second);
+            m.erase(er.first, er.second);
+            auto r = s.erase(hr);
+            vf::cover("erase(K)", hh, true);
+            vf::eq_int("ret", r, e);
+            check_state(s, m);
+            return mk.clean();
+        } else {
+            (void)s;
+            (void)m;
+            (void)hr;
+            return true;
+        }
     }
     static constexpr bool has_erase_it  = requires(Set& s, It i) { s.erase(i); };
     static constexpr bool has_erase_cit = requires(Set& s, CIt i) { s.erase(i); };
@@ -753,13 +972,15 @@ struct Drv {
     {
         Mark mk;
         char const* op  = kind == 0 ? "swap(set&)" : "swap(set&,set&)";
-        char const* sit = (m.empty() && tm.empty()) ? "both-empty"
+        std::string sits = (m.empty() && tm.empty()) ? "both-empty"
                         : (m.empty() || tm.empty()) ? "one-empty"
                         : m.size() == tm.size()     ? "same-size"
                         : m.size() > tm.size()      ? "lhs-larger"
                                                     : "rhs-larger";
+        if (state_of(m) != state_of(tm)) { sits += ",comparators-differ"; }
+        char const* sit = sits.c_str();
         vf::crumb(C::name, op, sit, "S=%s T=%s", show_m(m).c_str(), show_m(tm).c_str());
-        std::uint64_t hh = h(m, mask_of(tm), (std::uint64_t)kind);
+        std::uint64_t hh = h(m, mask_of(tm) | ((unsigned)state_of(tm) << 24), (std::uint64_t)kind);
         m.swap(tm);
         if (kind == 0) {
             s.swap(t);
@@ -788,7 +1009,7 @@ struct Drv {
             std::vector<int> exp(m.begin(), m.end());
             if (got != exp) { vf::eq_str("ret", show(got), show(exp)); }
             vf::crumb_sit((std::string(fill(m)) + ",set-afterwards").c_str());
-            M em = model();
+            M em = like(m); // the comparator object stays
             check_state(s, em); // [flat.set.modifiers]: *this is emptied
             // hand the container back
             char sit[64];
@@ -848,76 +1069,102 @@ struct Drv {
     static char const* seq_sit(std::vector<int> const& seq, M const& m)
     {
         bool sorted = true;
-        for (std::size_t i = 0; i + 1 < seq.size(); ++i) { sorted = sorted && cmp(seq[i], seq[i + 1]); }
+        for (std::size_t i = 0; i + 1 < seq.size(); ++i) { sorted = sorted && m.key_comp()(seq[i], seq[i + 1]); }
         if (seq.empty()) { return "empty"; }
         if (seq.size() != m.size()) { return "with-duplicates"; }
         return sorted ? "sorted-unique" : "unsorted-unique";
     }
     static void op_ctors(M const& m)
     {
+        // constructors without a comparator argument value-initialise Compare: expected order = default state
+        M const dm = C::stateful ? with_state(m, 0) : m;
         std::vector<std::vector<int>> seqs;
         perms_with_dups(m, seqs, C::inline_storage ? cap : cap + 1);
         for (auto const& seq : seqs) {
-            char const* sit = seq_sit(seq, m);
+            std::uint64_t hs = vf::fnv_bytes(seq.data(), seq.size() * sizeof(int));
             {
+                char const* sit = seq_sit(seq, dm);
                 vf::crumb(C::name, "set(first,last)", sit, "range=%s", show(seq).c_str());
                 Src<Key> src(seq);
                 Set s(src.cb(), src.ce());
-                vf::cover("set(first,last)", h(m, vf::fnv_bytes(seq.data(), seq.size() * sizeof(int)), seq.size()), true);
-                check_state(s, m);
+                vf::cover("set(first,last)", h(dm, hs, seq.size()), true);
+                check_state(s, dm);
             }
             if constexpr (has_extract) { // flat_set only
                 using Cont = typename Set::container_type;
                 {
+                    char const* sit = seq_sit(seq, dm);
                     vf::crumb(C::name, "set(container const&)", sit, "cont=%s", show(seq).c_str());
                     Src<Key> src(seq);
                     Cont c(src.cb(), src.ce());
                     Set s(c);
-                    vf::cover("set(container const&)", h(m, vf::fnv_bytes(seq.data(), seq.size() * sizeof(int)), seq.size()), true);
-                    check_state(s, m);
+                    vf::cover("set(container const&)", h(dm, hs, seq.size()), true);
+                    check_state(s, dm);
                 }
                 {
+                    char const* sit = seq_sit(seq, m);
                     vf::crumb(C::name, "set(first,last,comp)", sit, "range=%s", show(seq).c_str());
                     Src<Key> src(seq);
-                    Set s(src.cb(), src.ce(), typename Set::key_compare{});
-                    vf::cover("set(first,last,comp)", h(m, vf::fnv_bytes(seq.data(), seq.size() * sizeof(int)), seq.size()), true);
-                    check_state(s, m);
+                    Set s(src.cb(), src.ce(), make_cmp(m));
+                    vf::cover("set(first,last,comp)", h(m, hs, seq.size()), true);
+                    if (check_state(s, m) && seq.size() == m.size()) {
+                        M mm = m;
+                        use_after(s, mm);
+                    }
                 }
             }
         }
         {
-            vf::crumb(C::name, "set()", "default");
+            vf::crumb(C::name, "set()", "default", "-");
             Set s;
-            M em = model();
+            M em = model(0);
             vf::cover("set()", h(em), true);
             check_state(s, em);
         }
         if constexpr (has_extract) {
             using Cont = typename Set::container_type;
-            std::vector<int> sorted(m.begin(), m.end());
+            std::vector<int> sorted(dm.begin(), dm.end());
             char const* sit = sorted.empty() ? "empty" : "sorted-unique";
             {
                 vf::crumb(C::name, "set(sorted_unique,container)", sit, "cont=%s", show(sorted).c_str());
                 Src<Key> src(sorted);
                 Cont c(src.cb(), src.ce());
                 Set s(etl::sorted_unique, std::move(c));
-                vf::cover("set(sorted_unique,container)", h(m), true);
-                check_state(s, m);
-                op_lookups(s, m); // a set built this way must answer lookups with the right comparator
+                vf::cover("set(sorted_unique,container)", h(dm), true);
+                check_state(s, dm);
+                op_lookups(s, dm, true); // a set built this way must answer lookups with the right comparator
             }
             {
                 vf::crumb(C::name, "set(sorted_unique,first,last)", sit, "range=%s", show(sorted).c_str());
                 Src<Key> src(sorted);
                 Set s(etl::sorted_unique, src.cb(), src.ce());
-                vf::cover("set(sorted_unique,first,last)", h(m), true);
-                check_state(s, m);
+                vf::cover("set(sorted_unique,first,last)", h(dm), true);
+                check_state(s, dm);
             }
             {
-                vf::crumb(C::name, "set(comp)", "default");
-                Set s{typename Set::key_compare{}};
-                M em = model();
+                std::vector<int> msorted(m.begin(), m.end()); // sorted by the comparator object that is passed along
+                vf::crumb(C::name, "set(sorted_unique,first,last,comp)", sit, "range=%s", show(msorted).c_str());
+                Src<Key> src(msorted);
+                Set s(etl::sorted_unique, src.cb(), src.ce(), make_cmp(m));
+                vf::cover("set(sorted_unique,first,last,comp)", h(m), true);
+                if (check_state(s, m)) {
+                    op_lookups(s, m);
+                    M mm = m;
+                    use_after(s, mm);
+                }
+            }
+            {
+                vf::crumb(C::name, "set(comp)", "default", "-");
+                Set s{make_cmp(m)};
+                M em = like(m);
                 vf::cover("set(comp)", h(em), true);
-                check_state(s, em);
+                if (check_state(s, em)) {
+                    // the stored comparator object decides where later elements go
+                    for (int k : {2, 5, 3, 1}) {
+                        if (em.size() < cap) { op_insert(s, em, k, 0); }
+                    }
+                    if constexpr (C::stateful) { op_lookups(s, em, false); }
+                }
             }
         }
     }
@@ -929,37 +1176,48 @@ struct Drv {
             vf::crumb(C::name, "set(set const&)", fill(m), "S=%s", show_m(m).c_str());
             Set c(s);
             vf::cover("set(set const&)", h(m), true);
-            check_state(c, m);
+            bool ok = check_state(c, m);
             vf::crumb_sit((std::string(fill(m)) + ",source").c_str());
             check_state(s, m);
+            if (ok) {
+                M cm = m;
+                use_after(c, cm); // the copy works on its own, with a copy of the comparator
+                vf::crumb(C::name, "set(set const&)", (std::string(fill(m)) + ",source-after-copy-was-modified").c_str(), "S=%s", show_m(m).c_str());
+                check_state(s, m);
+            }
         });
         fresh(m0, order, [&](Set& s, M& m) {
             vf::crumb(C::name, "set(set&&)", fill(m), "S=%s", show_m(m).c_str());
             Set c(std::move(s));
             vf::cover("set(set&&)", h(m), true);
-            check_state(c, m);
+            if (check_state(c, m)) { use_after(c, m); }
         });
         auto const& subs = subsets(U, cap);
-        for (unsigned tmask : subs) {
-            M tm0 = model_of(tmask);
-            char sit[64];
-            std::snprintf(sit, sizeof sit, "%s-into-%s", m0.empty() ? "empty" : "non-empty", tm0.empty() ? "empty" : "non-empty");
+        for (unsigned tcode = 0; tcode < subs.size() * (unsigned)C::n_states; ++tcode) {
+            unsigned tmask = subs[tcode / (unsigned)C::n_states];
+            M tm0          = model_of(tmask, (int)(tcode % (unsigned)C::n_states));
+            char sit[96];
+            std::snprintf(sit, sizeof sit, "%s-into-%s%s", m0.empty() ? "empty" : "non-empty", tm0.empty() ? "empty" : "non-empty",
+                state_of(m0) != state_of(tm0) ? ",comparators-differ" : "");
             fresh(m0, order, [&](Set& s, M& m) {
                 fresh(tm0, order + 1, [&](Set& t, M& tm) {
                     vf::crumb(C::name, "operator=(set const&)", sit, "S=%s T=%s", show_m(m).c_str(), show_m(tm).c_str());
                     t = std::as_const(s);
-                    vf::cover("operator=(set const&)", h(m, tmask), true);
-                    check_state(t, m);
+                    tm = m; // std::set copy assignment copies the comparator object as well
+                    vf::cover("operator=(set const&)", h(m, tcode), true);
+                    bool ok = check_state(t, tm);
                     vf::crumb_sit((std::string(sit) + ",source").c_str());
                     check_state(s, m);
+                    if (ok) { use_after(t, tm); }
                 });
             });
             fresh(m0, order, [&](Set& s, M& m) {
                 fresh(tm0, order + 1, [&](Set& t, M& tm) {
                     vf::crumb(C::name, "operator=(set&&)", sit, "S=%s T=%s", show_m(m).c_str(), show_m(tm).c_str());
                     t = std::move(s);
-                    vf::cover("operator=(set&&)", h(m, tmask), true);
-                    check_state(t, m);
+                    tm = m;
+                    vf::cover("operator=(set&&)", h(m, tcode), true);
+                    if (check_state(t, tm)) { use_after(t, tm); }
                 });
             });
         }
@@ -971,7 +1229,7 @@ struct Drv {
         bool eq  = (m == tm);
         auto mis = std::mismatch(m.begin(), m.end(), tm.begin(), tm.end());
         char const* sit = eq ? "equal" : mis.first == m.end() ? "lhs-is-prefix" : mis.second == tm.end() ? "rhs-is-prefix" : (*mis.first < *mis.second ? "first-mismatch-less" : "first-mismatch-greater");
-        std::uint64_t hh = h(m, mask_of(tm));
+        std::uint64_t hh = h(m, mask_of(tm) | ((unsigned)state_of(tm) << 24));
         auto one         = [&](char const* op, bool got, bool exp) {
             vf::crumb(C::name, op, sit, "S=%s T=%s", show_m(m).c_str(), show_m(tm).c_str());
             vf::cover(op, hh, !(m.empty() && tm.empty()));
@@ -1029,12 +1287,31 @@ struct Drv {
                     }
                 }
             }
+            // heterogeneous keys equivalent to 0, 1 or several stored elements: the whole run must be returned
+            if constexpr (C::hetero) {
+                for_each_range_key([&](HR hr) {
+                    std::string sit  = range_key_sit(m, hr);
+                    std::uint64_t hh = h(m, (std::uint64_t)(hr.lo * 64 + hr.hi), 0x4852);
+                    {
+                        vf::crumb(C::name, "equal_range(K)", sit.c_str(), "S=%s K=[%d,%d]", show_m(m).c_str(), hr.lo, hr.hi);
+                        auto r = s.equal_range(hr);
+                        vf::cover("equal_range(K)", hh, !m.empty());
+                        check_range(s, m, hr, r);
+                    }
+                    {
+                        vf::crumb(C::name, "equal_range(K) const", sit.c_str(), "S=%s K=[%d,%d]", show_m(m).c_str(), hr.lo, hr.hi);
+                        auto r = cs.equal_range(hr);
+                        vf::cover("equal_range(K) const", hh, !m.empty());
+                        check_range(s, m, hr, r);
+                    }
+                });
+            }
         });
 #elif VF_UNIT == 7
         // insert(sorted_unique, first, last): every sorted-unique range R with |S u R| <= capacity
         auto const& subs = subsets(U, cap);
         for (unsigned rmask : subs) {
-            M rm = model_of(rmask);
+            M rm = model_of(rmask, state_of(m0));
             std::vector<int> seq(rm.begin(), rm.end());
             if (!range_fits(m0, seq)) { continue; }
             fresh(m0, order, [&](Set& s, M& m) {
@@ -1058,8 +1335,8 @@ struct Drv {
     static void run_enum(vf::Case&, unsigned sub_index, unsigned family)
     {
         auto const& subs = subsets(U, cap);
-        unsigned mask    = subs[sub_index];
-        M const m0       = model_of(mask);
+        unsigned mask    = subs[sub_index / (unsigned)C::n_states];
+        M const m0       = model_of(mask, (int)(sub_index % (unsigned)C::n_states));
         unsigned order   = sub_index + family;
         if constexpr (C::tracked) { vf::registry().reset(); }
 #if VF_UNIT == 6 || VF_UNIT == 7
@@ -1071,7 +1348,7 @@ struct Drv {
         case F_LOOKUP:
             for (unsigned o = 0; o < 4; ++o) {
                 fresh(m0, o, [&](Set& s, M& m) {
-                    op_lookups(s, m);
+                    op_lookups(s, m, o == 0 || o == 3);
                     if (o == 0) { op_observers(s, m); }
                 });
             }
@@ -1107,7 +1384,7 @@ struct Drv {
                     int c = code;
                     for (int i = 0; i < len; ++i, c /= U) { seq[(std::size_t)i] = 1 + c % U; }
                     if (!C::is_static && !range_fits(m0, seq)) { continue; }
-                    if (range_ambiguous(seq)) { continue; }
+                    if (range_ambiguous(m0, seq)) { continue; }
                     fresh(m0, order + (unsigned)code, [&](Set& s, M& m) { op_insert_range(s, m, seq); });
                 }
             }
@@ -1116,6 +1393,9 @@ struct Drv {
         case F_ERASE_KEY:
             for (int k = 0; k <= U + 1; ++k) {
                 fresh(m0, order + (unsigned)k, [&](Set& s, M& m) { op_erase_key(s, m, k); });
+            }
+            if constexpr (C::hetero && has_erase_K) {
+                for_each_range_key([&](HR hr) { fresh(m0, order, [&](Set& s, M& m) { op_erase_K(s, m, hr); }); });
             }
             break;
         case F_ERASE_IT:
@@ -1146,12 +1426,15 @@ struct Drv {
         case F_SWAP: {
             auto const& all = subsets(U, cap);
             for (int kind = 0; kind < 2; ++kind) {
-                for (unsigned tmask : all) {
-                    M tm0 = model_of(tmask);
+                for (unsigned tcode = 0; tcode < all.size() * (unsigned)C::n_states; ++tcode) {
+                    unsigned tmask = all[tcode / (unsigned)C::n_states];
+                    M tm0          = model_of(tmask, (int)(tcode % (unsigned)C::n_states));
                     fresh(m0, order, [&](Set& s, M& m) {
                         fresh(tm0, order + tmask, [&](Set& t, M& tm) {
                             if (op_swap(s, m, t, tm, kind)) {
-                                // both sides stay fully functional
+                                // both sides stay fully functional, each with the comparator it received
+                                use_after(s, m);
+                                use_after(t, tm);
                                 op_erase_key(s, m, 3);
                                 op_erase_key(t, tm, 3);
                             }
@@ -1176,7 +1459,7 @@ struct Drv {
             if constexpr (has_extract) {
                 fresh(m0, order, [&](Set& s, M& m) { op_extract_replace(s, m); });
                 for (unsigned tmask : subsets(U, cap)) {
-                    M tm = model_of(tmask);
+                    M tm = model_of(tmask, state_of(m0)); // the container must be sorted by the set's own comparator
                     fresh(m0, order + tmask, [&](Set& s, M& m) {
                         if (op_replace(s, m, tm)) { op_lookups(s, m); }
                     });
@@ -1195,8 +1478,10 @@ struct Drv {
         case F_RELATIONAL:
             fresh(m0, order, [&](Set& s, M& m) {
                 for (unsigned tmask : subsets(U, cap)) {
-                    M tm0 = model_of(tmask);
-                    fresh(tm0, order + tmask, [&](Set& t, M& tm) { op_relational(s, m, t, tm); });
+                    for (int tst = 0; tst < C::n_states; ++tst) {
+                        M tm0 = model_of(tmask, tst);
+                        fresh(tm0, order + tmask, [&](Set& t, M& tm) { op_relational(s, m, t, tm); });
+                    }
                 }
             });
             break;
@@ -1217,10 +1502,11 @@ struct Drv {
         if constexpr (C::tracked) { vf::registry().reset(); }
         {
             vf::Rng& r = c.rng;
-            Set s;
-            M m = model();
-            Set t;
-            M tm = model();
+            // stateful comparators: the two sets start with independently drawn comparator states
+            M m   = model(C::n_states > 1 ? (int)r.below(2) : 0);
+            M tm  = model(C::n_states > 1 ? (int)r.below(2) : 0);
+            Set s = make_set(m);
+            Set t = make_set(tm);
             // bias: 0 balanced, 1 insert-heavy (reach full), 2 erase-heavy
             unsigned bias = (unsigned)r.below(3);
             unsigned len  = 40;
@@ -1243,7 +1529,7 @@ struct Drv {
                         std::vector<int> seq;
                         std::size_t n = (std::size_t)r.below(4);
                         for (std::size_t i = 0; i < n; ++i) { seq.push_back((int)r.range(1, U)); }
-                        if ((C::is_static || range_fits(m, seq)) && !range_ambiguous(seq)) { ok = op_insert_range(s, m, seq); }
+                        if ((C::is_static || range_fits(m, seq)) && !range_ambiguous(m, seq)) { ok = op_insert_range(s, m, seq); }
                     }
                 } else if (pick < 80) {
                     unsigned which = (unsigned)r.below(10);
@@ -1264,7 +1550,7 @@ struct Drv {
                         ok = op_clear(s, m);
                     }
                 } else if (pick < 90) {
-                    op_lookups(s, m);
+                    op_lookups(s, m, r.chance(1, 3));
                 } else if (pick < 95) {
                     ok = op_swap(s, m, t, tm, (int)r.below(2));
                     if (!ok) { resync(t, tm); }
@@ -1363,13 +1649,13 @@ struct MDrv {
     {
         std::vector<int> none;
         {
-            vf::crumb(C::name, "multiset()", "default");
+            vf::crumb(C::name, "multiset()", "default", "-");
             Set s;
             vf::cover("multiset()", vf::fnv(C::name), true);
             check(s, none);
         }
         {
-            vf::crumb(C::name, "multiset(comp)", "default");
+            vf::crumb(C::name, "multiset(comp)", "default", "-");
             Set s{typename Set::key_compare{}};
             vf::cover("multiset(comp)", vf::fnv(C::name), true);
             check(s, none);
@@ -1438,7 +1724,7 @@ Entry set_entry(bool enumerate, unsigned weight)
 #else
     unsigned const nfam = F_COUNT;
 #endif
-    return Entry{C::name, enumerate ? subsets(C::universe, C::cap).size() : 0, nfam, weight, &Drv<C>::run_enum, &Drv<C>::run_random};
+    return Entry{C::name, enumerate ? subsets(C::universe, C::cap).size() * (std::size_t)C::n_states : 0, nfam, weight, &Drv<C>::run_enum, &Drv<C>::run_random};
 }
 template <typename C>
 Entry mset_entry(unsigned weight)
@@ -1584,6 +1870,17 @@ DEF_CFG(FT_less_16, "flat_set<Tracked,static_vector<16>,less>", TK, 16, 18, 0, f
 std::vector<Entry> entries()
 {
     return {set_entry<FT_less_3>(true, 2), set_entry<FT_greater_4>(true, 2), set_entry<FT_less_16>(false, 3)};
+}
+// ---- unit 9: comparator with run-time state (default constructible, transparent); flat_set: both states of the stored object
+#elif VF_UNIT == 9
+DEF_CFG(SD_4, "static_set<int,4,dir_less>", int, 4, 6, 0, true, true, false, true, etl::static_set<int, 4, DirLess>)
+DEF_CFG(FD_3, "flat_set<int,static_vector<3>,dir_less>", int, 3, 6, 0, true, false, false, true, etl::flat_set<int, etl::static_vector<int, 3>, DirLess>)
+DEF_CFG(FD_4, "flat_set<int,static_vector<4>,dir_less>", int, 4, 6, 0, true, false, false, true, etl::flat_set<int, etl::static_vector<int, 4>, DirLess>)
+DEF_CFG(VD_4, "flat_set<int,vec_like[4],dir_less>", int, 4, 6, 0, true, false, false, false, etl::flat_set<int, vec_like<int>, DirLess>)
+DEF_CFG(FD_16, "flat_set<int,static_vector<16>,dir_less>", int, 16, 18, 0, true, false, false, true, etl::flat_set<int, etl::static_vector<int, 16>, DirLess>)
+std::vector<Entry> entries()
+{
+    return {set_entry<SD_4>(true, 1), set_entry<FD_3>(true, 2), set_entry<FD_4>(true, 2), set_entry<VD_4>(true, 2), set_entry<FD_16>(false, 3)};
 }
 #else
     #error "unknown VF_UNIT / VF_PART"
